@@ -167,7 +167,13 @@ impl Iterator for CatchGradualDifficulty {
 
 impl ExactSizeIterator for CatchGradualDifficulty {
     fn len(&self) -> usize {
-        self.diff_objects.len() + 1 - self.idx
+        // Without any objects there is neither a difficulty object nor a first
+        // object that could be processed without one.
+        if self.count.is_empty() {
+            0
+        } else {
+            self.diff_objects.len() + 1 - self.idx
+        }
     }
 }
 
